@@ -55,12 +55,20 @@ def shards(tier):
     for L in range(1, b['two_len'] + 1):
         for first in 'abc':
             out.append({'kind': 'two', 'L': L, 'first': first})
+    for ai in (1, 2):
+        for L in range(1, b['two_len']):
+            out.append({'kind': 'two', 'L': L, 'alpha': ai})
     for i in range(len(LONG_PARTS)):
         out.append({'kind': 'longparts', 'i': i})
     return out
 
 
 LONG_PARTS = ((480, 260, 220), (500, 260, 130), (390, 260, 0), (520, 260, 260))       # (text length, end of part 1, start of part 2)
+
+
+# alphabets of the two-window sweep: plain letters; with a character outside the Basic Multilingual Plane (two UTF-16 code units, one code
+# point); with a blank (parts may consist of white space only)
+TWO_ALPHABETS = ['abc', ['\U0001d520', 'a', 'b'], [' ', 'a', 'b']]
 
 
 def long_text(n, seed=7):
@@ -214,8 +222,10 @@ def run_shard(shard, ctx, tier):
         # every way of reading one text T as two true windows a = T[:k], b = T[j:] (j <= k), including a second window that only repeats
         # the end of the first one (k = len(T))
         L = shard['L']
-        for rest in itertools.product('abc', repeat=L - 1):
-            T = shard['first'] + ''.join(rest)
+        alpha = TWO_ALPHABETS[shard.get('alpha', 0)]
+        texts = ([shard['first'] + ''.join(r) for r in itertools.product(alpha, repeat=L - 1)] if 'alpha' not in shard
+                 else [''.join(r) for r in itertools.product(alpha, repeat=L)])
+        for T in texts:
             for k in range(1, L + 1):
                 for j in range(0, k):
                     guarded_check(mod, {'parts': [T[:k], T[j:]], 'two': T}, ctx)
